@@ -2,7 +2,7 @@
 //! that does most of the work for [`crate::input::Context::transform`].
 
 use super::CssData;
-use super::cssdest::{CssDestination, is_keyframes};
+use super::cssdest::{AtRootDest, CssDestination, is_keyframes};
 use crate::css::{self, AtRule, Import, SelectorCtx};
 use crate::error::ResultPos;
 use crate::input::{Context, Loader, Parsed, SourceKind};
@@ -233,7 +233,8 @@ fn handle_item(
                 let mut rule = dest.start_rule(selectors).no_pos()?;
                 handle_body(body, &mut rule, subscope, file_context)?;
             } else {
-                handle_body(body, dest, subscope, file_context)?;
+                let mut dest = AtRootDest::new(dest);
+                handle_body(body, &mut dest, subscope, file_context)?;
             }
         }
         Item::AtMedia { args, body, pos: _ } => {
